@@ -23,27 +23,28 @@ Label ==
    wok |-> fails' = fails,
    clock |-> clock',
    tick |-> clock' # clock,
+   setrto |-> IF rto' # rto THEN rto' ELSE 0,
    deliver |-> IF inbox = None /\ inbox' # None THEN [kind |-> inbox'.kind, id |-> inbox'.id] ELSE [kind |-> "", id |-> ""],
    ev |-> IF p # "env" /\ loc'[p].ev # None THEN [kind |-> loc'[p].ev.kind, id |-> loc'[p].ev.id] ELSE [kind |-> "", id |-> ""]]
 
 \* compact state identity for path reconstruction
 ObjJ(o) == [id |-> IF obj[o].id = None THEN "" ELSE obj[o].id, a |-> obj[o].attempt, c |-> obj[o].calls,
-            w |-> IF obj[o].owner = None THEN "" ELSE PN(obj[o].owner), f |-> obj[o].free, r |-> obj[o].reg, q |-> obj[o].prev]
+            w |-> IF obj[o].owner = None THEN "" ELSE PN(obj[o].owner), f |-> obj[o].free, r |-> obj[o].reg, q |-> obj[o].prev, x |-> obj[o].rto]
 LocJ(r) == [id |-> IF r.id = None THEN "" ELSE r.id, o |-> ON(r.o),
             ev |-> IF r.ev = None THEN "" ELSE r.ev.kind \o ":" \o r.ev.id,
             todo |-> r.todo, rpc |-> IF r.rpc = None THEN "" ELSE r.rpc, s |-> IF r.s = None THEN "" ELSE PN(r.s), now |-> r.now]
-Key(cl, cc, co, t, a, ac, al, ob, ck, pcv, lc, ib, f, r, j, ws, hc, rt, fb, en) ==
-  << cl, cc, co, [i \in DOMAIN t |-> ON(t[i])], [i \in DOMAIN a |-> IF a[i] = None THEN -1 ELSE a[i]], ac,
+Key(cl, cc, co, t, a, ac, al, ob, ck, pcv, lc, ib, f, r, j, ws, hc, rt, fb, en, rr, rb) ==
+  << rr, rb, cl, cc, co, [i \in DOMAIN t |-> ON(t[i])], [i \in DOMAIN a |-> IF a[i] = None THEN -1 ELSE a[i]], ac,
      IF al = None THEN "" ELSE al, ck, pcv, ib # None, IF ib = None THEN "" ELSE ib.kind \o ":" \o ib.id,
      f, r, j, ws, hc, rt, fb, en >>
 
 PrintEdge ==
   PrintT("EDGE " \o ToJson(
-    [f |-> << Key(closed, closeChan, connCloses, ct, at, aclosed, alock, obj, clock, pc, loc, inbox, fails, resps, junk, wsucc, hcalls, ret, fbcalls, ended),
+    [f |-> << Key(closed, closeChan, connCloses, ct, at, aclosed, alock, obj, clock, pc, loc, inbox, fails, resps, junk, wsucc, hcalls, ret, fbcalls, ended, rto, rtoBudget),
               [o \in Objs |-> ObjJ(o)], [p \in Procs |-> LocJ(loc[p])] >>,
      a |-> Label,
-     t |-> << Key(closed', closeChan', connCloses', ct', at', aclosed', alock', obj', clock', pc', loc', inbox', fails', resps', junk', wsucc', hcalls', ret', fbcalls', ended'),
+     t |-> << Key(closed', closeChan', connCloses', ct', at', aclosed', alock', obj', clock', pc', loc', inbox', fails', resps', junk', wsucc', hcalls', ret', fbcalls', ended', rto', rtoBudget'),
               [o \in Objs |-> [id |-> IF obj'[o].id = None THEN "" ELSE obj'[o].id, a |-> obj'[o].attempt, c |-> obj'[o].calls,
-                               w |-> IF obj'[o].owner = None THEN "" ELSE PN(obj'[o].owner), f |-> obj'[o].free, r |-> obj'[o].reg, q |-> obj'[o].prev]],
+                               w |-> IF obj'[o].owner = None THEN "" ELSE PN(obj'[o].owner), f |-> obj'[o].free, r |-> obj'[o].reg, q |-> obj'[o].prev, x |-> obj'[o].rto]],
               [p \in Procs |-> LocJ(loc'[p])] >>]))
 =============================================================================
